@@ -52,8 +52,8 @@ C(s) == <<"c", s>>
 
 Pick(S, one) == IF Small THEN {one} ELSE S
 \* (names longer than the longest keyword, 14 characters for macro keywords, take a separate path in the lexer)
-Names  == Pick({"a", "b1", "x_y", "a_name_of_thirty_two_characters_", "corresponding_x"}, "a")
-MNames == Pick({"m", "mac2", "number_of_observations", "abcdefghijklmno", "abcdefghijklmn"}, "m")
+Names  == Pick({"a", "b1", "x_y", "_ds", "_", "a_name_of_thirty_two_characters_", "corresponding_x"}, "a")
+MNames == Pick({"m", "mac2", "_cleanup", "number_of_observations", "abcdefghijklmno", "abcdefghijklmn"}, "m")
 Words  == Pick({"abc", "x1", "q", "supercalifragilistic"}, "abc")
 Ints   == Pick({"0", "7", "42"}, "7")
 
